@@ -161,6 +161,8 @@ def gen_plan(seed, cfg):
         if op['op'] == 'load' and re_.random() < 0.4:
             op['override'] = [[re_.randrange(3), re_.randrange(8), re_.choice([re_.randint(1, 50), 'ov', 2.5, True])]
                               for _ in range(re_.choice([1, 1, 2]))]
+            if re_.random() < 0.5:
+                op['reset_source'] = True
     if swarm['relative']:
         for op in ops:
             if op['op'] in ('write', 'load') and re_.random() < 0.6:
@@ -348,7 +350,7 @@ def run(req, ctx):
                 had_cache = _pyc_header(paths[j]) is not None
                 ov = op.get('override') or []
 
-                def behaviour(ex_):
+                def behaviour(ex_, again):
                     b = _query_all(ex_, spec, Cell)
                     if ov:
                         ex_.set_cells([Cell(0, c_, r_, v_) for c_, r_, v_ in ov])
@@ -358,11 +360,19 @@ def run(req, ctx):
                             b['after_override']['grid'] = [len(g), [len(row_) for row_ in g]]
                         except Exception as e:
                             b['after_override']['grid'] = outcome_of_exc(e)
+                    if op.get('reset_source'):
+                        # the SAME source given to the same executor once more (same file again / same class object again)
+                        try:
+                            again(ex_)
+                            b['after_same_source_again'] = _query_all(ex_, spec, Cell, ov)
+                        except Exception as e:
+                            b['after_same_source_again'] = {'load': outcome_of_exc(e)}
                     return b
 
                 try:
-                    ex_file = Executor().set_executed_class(class_file=spelled(j, op))
-                    got = behaviour(ex_file)
+                    spelled_path = spelled(j, op)
+                    ex_file = Executor().set_executed_class(class_file=spelled_path)
+                    got = behaviour(ex_file, lambda e_: e_.set_executed_class(class_file=spelled_path))
                 except Exception as e:
                     got = {'load': outcome_of_exc(e)}
                 try:
@@ -373,7 +383,7 @@ def run(req, ctx):
                     else:
                         probe('class_object_shared_by_several_executors')
                     ex_obj = Executor().set_executed_class(class_object=klass_by_text[text])
-                    want = behaviour(ex_obj)
+                    want = behaviour(ex_obj, lambda e_: e_.set_executed_class(class_object=klass_by_text[text]))
                 except Exception as e:
                     want = {'load': outcome_of_exc(e)}
                 if ov:
@@ -443,9 +453,14 @@ def shrink(plan):
             o.pop('rel', None)
         yield p
     for i, o in enumerate(ops):
+        if o.get('reset_source'):
+            p = copy.deepcopy(plan)
+            del p['ops'][i]['reset_source']
+            yield p
         if o.get('override'):
             p = copy.deepcopy(plan)
             del p['ops'][i]['override']
+            p['ops'][i].pop('reset_source', None)
             yield p
     if any(o.get('via_link') for o in ops):
         p = copy.deepcopy(plan)
